@@ -34,6 +34,9 @@ def run(prog, chk):
     real_svg_scan(prog, chk)
     reader_defaults(prog, chk)
     passthrough_str_ops(prog, chk)
+    top_level_predicate(prog, chk)
+    qualified_names(prog, chk)
+    inner_events_guard(prog, chk)
 
 
 def _bool_call_gate(body, callee_pred):
@@ -252,3 +255,60 @@ def passthrough_str_ops(prog, chk):
             ok = ent is not None and seen[k] <= ent[0]
             chk.ob(ok, "A14.passthrough-str-ops", f"{k[0].replace('svgdx::', '')}:{k[1]}#{seen[k]}", b.where(bb, t.get("line")), f"reviewed: {ent[1] if ent else ''}", f"{b.short} applies str::{k[1]}() on the reader / element / writer path; not one of the reviewed places: attribute values, class lists or character data of a passed-through document can be altered", by="table")
     chk.floor("A14.passthrough-str-ops", n, 9, "character-altering string operation on the reader/writer path")
+
+
+def top_level_predicate(prog, chk):
+    """`at_top_level()` - the gate of the whole-document real-SVG shortcut - means `no element has been entered`:
+    it compares the nesting counter with 0 (the element stack is not pushed by plain containers)"""
+    b = prog.body("svgdx::context::TransformerContext::at_top_level")
+    chk.touch(b)
+    ok = False
+    for x, i, st in b.all_stmts():
+        rv = st.get("rv")
+        if rv and rv.get("k") == "binop" and rv.get("op") == "Eq":
+            sides = [rv["a"], rv["b"]]
+            fields = [op_place(sd) for sd in sides]
+            consts = [op_const(sd) for sd in sides]
+            reads_depth = any(f is not None and f[1] and f[1][-1] == ".current_depth" for f in fields) or any(R.origin(b, sd, carriers={})[0] == "field" and R.origin(b, sd, carriers={})[1][1][-1] == ".current_depth" for sd in sides if op_place(sd) is not None)
+            zero = any(k is not None and k.get("int") == 0 for k in consts)
+            ok = ok or (reads_depth and zero)
+    others = [c.path for (bb, t, c) in b.call_sites(lambda c: True)]
+    chk.ob(ok and not others, "A7.top-level", "at_top_level", b.where(), "at_top_level() is `current_depth == 0`", f"at_top_level() is not the test `current_depth == 0` (calls: {others}): content nested in plain containers can be taken for the document root, so a nested namespaced <svg> turns the whole document into pass-through (root without xmlns/version)")
+
+
+def qualified_names(prog, chk):
+    """element names are the qualified names on both tags: no use of quick-xml's local_name() (a prefixed
+    `<dc:title>` must not lose its prefix on the start tag while the end tag keeps it)"""
+    uses = []
+    names = 0
+    for b in prog.bodies.values():
+        if b.unit != "svgdx-lib":
+            continue
+        for (bb, t, c) in b.call_sites(lambda c: "quick_xml" in c.path and c.path.split("::")[-1] in ("local_name", "name", "prefix", "resolve_element")):
+            if c.path.split("::")[-1] == "name":
+                names += 1
+            else:
+                uses.append((b, bb, t, c))
+    chk.floor("A16.qualified-names", names, 2, "quick-xml name() call (start and end tags)")
+    for (b, bb, t, c) in uses:
+        chk.bad("A16.qualified-names", f"{b.short}:{c.path.split('::')[-1]}", b.where(bb, t.get("line")), f"{b.short} takes an element name with {c.path.split('::')[-1]}(): start/empty tags and end tags no longer spell prefixed names alike")
+    if not uses:
+        chk.ok("A16.qualified-names", "scan", "src/events.rs", f"{names} name() calls, no local_name()/prefix()")
+
+
+def inner_events_guard(prog, chk):
+    """SvgElement::inner_events: an element with separate tags has content `events[start+1..end]` whenever end > start
+    (an adjacent pair gives the empty list, not `None`): the guard compares the two ends of the range as they are"""
+    b = prog.body("svgdx::element::SvgElement::inner_events")
+    chk.touch(b)
+    found = None
+    for x, i, st in b.all_stmts():
+        rv = st.get("rv")
+        if rv and rv.get("k") == "binop" and rv.get("op") in ("Gt", "Lt", "Ge", "Le", "Ne") and rv.get("aty") == "usize":
+            oa, ob = R.origin(b, rv["a"], carriers={}), R.origin(b, rv["b"], carriers={})
+            def comp(o):
+                # component of the Some payload of self.event_range
+                return o[0] in ("field", "unknown") and o[1] is not None and any(str(p_).endswith("event_range") for p_ in (o[1][1] if isinstance(o[1], tuple) else [])) or (o[0] == "field")
+            found = (rv["op"], oa[0], ob[0])
+    ok = found is not None and found[0] in ("Gt", "Lt") and found[1] != "rv" and found[2] != "rv" and found[1] != "const" and found[2] != "const"
+    chk.ob(ok, "A7.inner-events", "inner_events", b.where(), "inner_events() yields the (possibly empty) content list whenever end > start", f"the range guard of inner_events() is not the plain `end > start` (found {found}): an element whose tags are adjacent (`<svg xmlns=..></svg>`) loses its content list and is dropped by Container")
